@@ -123,6 +123,9 @@ class C07(Property):
     id = "C07"
     title = "flatten() is compositional and names every leaf by its position"
     proof_module = "Proofs.C07Unique"
+    level_text = "Lean 4 theorems on the flatten model: `flatten_compositional` (multiset equality with the members' own outputs at every node), `flatten_level_order`, `joined_opaque`, `keys_are_paths` (key = separator-join of names, list members by position), `keys_unique_paths` (equal keys imply equal name paths under SepSafe). Tied to /repo by correspondence on element states after random list-mutation histories (incl. extended slices); oracle recomputes keys from positions."
+    level_note = 'Trusted: Lean kernel + 3 standard axioms; model Flatland/Flat.lean (flatten part); element state and leaf texts are extracted from the real element; that only Array/MultiValue members share a name path is checked by the oracle, not proved.'
+    technique = 'Lean 4 proof (queue BFS = level order, permutation with per-child outputs); differential correspondence; Python oracle'
     theorems = [
         "Flatland.Flat.Proofs.flatten_compositional",
         "Flatland.Flat.Proofs.flatten_root_compositional",
